@@ -145,7 +145,7 @@ deriving DecidableEq, Repr
 
 inductive Pc
   | idle
-  | setLock | setUnlock | setBcast
+  | setLock | setBcast | setUnlock
   | resetLock | resetUnlock
   | wLock (dl : Option Deadline)
   | wUnlock (r : Bool) (dl : Option Deadline)
@@ -193,16 +193,17 @@ def step (s : St) (t : Tid) : Act Op → Option St
   | .run alt =>
     match s.pc t with
     | .idle => none
-    -- set(): lock; signaled = true; unlock; broadcast
+    -- set(): lock; signaled = true; broadcast; unlock   (order after fixes/sync/0001: the broadcast is issued
+    -- while the mutex is held, so that the unlock is set()'s last access to the object)
     | .setLock =>
       if alt = 0 ∧ s.m.canLock t then
-        some (goto { s with m := s.m.lock t, flag := true, hist := .write true :: s.hist } t .setUnlock) else none
-    | .setUnlock =>
-      if alt = 0 then (s.m.unlock t).map fun m' => goto { s with m := m' } t .setBcast else none
+        some (goto { s with m := s.m.lock t, flag := true, hist := .write true :: s.hist } t .setBcast) else none
     | .setBcast =>
       if alt = 0 then
-        some (done { s with pc := fun u => match s.pc u with | .wBlocked dl => .wRelock dl false | p => p } t .unit)
+        some (goto { s with pc := fun u => match s.pc u with | .wBlocked dl => .wRelock dl false | p => p } t .setUnlock)
       else none
+    | .setUnlock =>
+      if alt = 0 then (s.m.unlock t).map fun m' => done { s with m := m' } t .unit else none
     -- reset(): lock; signaled = false; unlock
     | .resetLock =>
       if alt = 0 ∧ s.m.canLock t then
